@@ -531,10 +531,18 @@ func (r *replicatorActor) handleProtoTombstone(msg *internalpb.CRDTTombstone) {
 	delete(r.store, keyID)
 	delete(r.versions, keyID)
 
+	deletedAt := time.Unix(0, msg.GetDeletedAtNanos())
+	// a late or duplicated tombstone of an earlier deletion must not move the
+	// deletion time backwards: the key stays deleted until the most recent
+	// deletion this replica knows of expires
+	if current, ok := r.tombstones[keyID]; ok && !deletedAt.After(current.deletedAt) {
+		return
+	}
+
 	r.tombstones[keyID] = &tombstone{
 		keyID:     keyID,
 		dataType:  dataType,
-		deletedAt: time.Unix(0, msg.GetDeletedAtNanos()),
+		deletedAt: deletedAt,
 		deletedBy: msg.GetDeletedByNode(),
 	}
 }
